@@ -38,7 +38,10 @@ def to_dtype(v, dtype):
     if dtype in INT_W:
         bits, signed = INT_W[dtype]
         if isinstance(v, float):
-            if v != v or abs(v) >= 2.0**62:
+            lo, hi = (-2**(bits - 1), 2**(bits - 1) - 1) if signed else (0, 2**bits - 1)
+            if v != v or not (lo - 1 < v < hi + 1):
+                # a floating-point value outside the target integer type: the conversion is undefined in C++
+                # (x86 happens to give the minimum): the documented semantics do not define it either
                 raise Unsupported("float to int out of range")
             v = int(v)
         v = int(v) % 2**bits
